@@ -75,14 +75,29 @@ def isRCall (s : String) : Bool := s.startsWith "R"
 
 /-- C13 on an async trace: every write / flush / shutdown is forwarded exactly once with identical bytes and its
     result (count, error or Pending) is returned unchanged -/
-def satC13a (ops : List AOp) (results : List String) (log : List String) (innerId : Nat) : Bool :=
-  let expect := (ops.zip results).filterMap fun (op, r) =>
+def satC13a (ops : List AOp) (results : List String) (log : List String) (innerId : Nat)
+    (alts : List (Option (List Byte)) := []) : Bool :=
+  -- a vectored write may reach the wrapped writer as its first non-empty slice (the trait's default) or, forwarded to a
+  -- stream that gathers, as the whole concatenation: once, result unchanged, in either case
+  let alts := alts ++ List.replicate (ops.length - alts.length) none
+  let expect : List (List String) := ((ops.zip alts).zip results).filterMap fun ((op, alt), r) =>
     match op with
-    | .write b => some s!"W{innerId}:{hex b}:{r.drop 1}"
-    | .flush => some s!"F{innerId}:{r.drop 1}"
-    | .shutdown => some s!"S{innerId}:{r.drop 1}"
+    | .write b => some (s!"W{innerId}:{hex b}:{r.drop 1}" :: (match alt with | some a => [s!"W{innerId}:{hex a}:{r.drop 1}"] | none => []))
+    | .flush => some [s!"F{innerId}:{r.drop 1}"]
+    | .shutdown => some [s!"S{innerId}:{r.drop 1}"]
     | .read _ _ => none
-  expect == log.filter (fun c => !isRCall c)
+  let wlog := log.filter (fun c => !isRCall c)
+  expect.length == wlog.length && (expect.zip wlog).all fun (cands, l) => cands.contains l
+
+/-- did some vectored write reach the stream as the concatenation rather than as its first non-empty slice? -/
+def gatheredA (ops : List AOp) (log : List String) (innerId : Nat) (alts : List (Option (List Byte))) : Bool :=
+  let alts := alts ++ List.replicate (ops.length - alts.length) none
+  let ws := (ops.zip alts).filterMap fun (op, alt) => match op with | .write b => some (b, alt) | _ => none
+  let wl := log.filter (fun c => c.startsWith "W")
+  (ws.zip wl).any fun ((b, alt), l) =>
+    match alt with
+    | some a => a != b && l.startsWith s!"W{innerId}:{hex a}:"
+    | none => false
 
 /-- every read result keeps the already-filled prefix intact -/
 def prefixKept (ops : List AOp) (results : List String) : Bool :=
@@ -123,6 +138,7 @@ def checkACH (pre impl tok : List String) : Option (List String × Bool) := do
   let (s1, s2, ops) ← match pre with
     | [a, b, o] => do pure ((← asrw? a), (← asrw? b), (← (listOf o).mapM aop?))
     | _ => none
+  let alts := match pre with | [_, _, o] => DrvAD.gatherAlts o | _ => []
   let (ires, ilog, _) ← splitImpl impl
   let (tres, tlog, _) ← splitImpl tok
   let (cf, mres) := runAChain { first := some s1, second := s2 } ops []
@@ -132,10 +148,10 @@ def checkACH (pre impl tok : List String) : Option (List String × Bool) := do
   if mres != ires || m1 != logOf "1:" ilog || m2 != logOf "2:" ilog then v := "DRIFT" :: v
   if mres.filter isRd != ires.filter isRd || m1 != logOf "1:" ilog || m2.filter isRCall != (logOf "2:" ilog).filter isRCall then
     v := "DIFF C16" :: v
-  if mres.filter (!isRd ·) != ires.filter (!isRd ·) || m2.filter (!isRCall ·) != (logOf "2:" ilog).filter (!isRCall ·) then
+  if !gatheredA ops ilog 2 alts && (mres.filter (!isRd ·) != ires.filter (!isRd ·) || m2.filter (!isRCall ·) != (logOf "2:" ilog).filter (!isRCall ·)) then
     v := "DIFF C13" :: v
   if ires.filter isRd != tres || ilog.filter isRCall != tlog || !prefixKept ops ires then v := "UNSAT C16" :: v
-  if !satC13a ops ires ilog 2 then v := "UNSAT C13" :: v
+  if !satC13a ops ires ilog 2 alts then v := "UNSAT C13" :: v
   if ires.contains "panic" then v := "UNSAT C04" :: v
   return (v, ops.length > 1)
 
@@ -144,6 +160,7 @@ def checkACB (pre impl tok : List String) : Option (List String × Bool) := do
   let (n, content, ri, s2, ops) ← match pre with
     | [n, c, ri, b, o] => do pure ((← n.toNat?), (← unhex? c), (← ri.toNat?), (← asrw? b), (← (listOf o).mapM aop?))
     | _ => none
+  let alts := match pre with | [_, _, _, _, o] => DrvAD.gatherAlts o | _ => []
   let (ires, ilog, extra) ← splitImpl impl
   let left ← match extra with | [x] => unhex? x | _ => none
   let (tres, tlog, _) ← splitImpl tok
@@ -169,9 +186,9 @@ def checkACB (pre impl tok : List String) : Option (List String × Bool) := do
   let mut v : List String := []
   if mres != ires || m2 != ilog || mleft != left then v := "DRIFT" :: v
   if mres.filter isRd != ires.filter isRd || m2.filter isRCall != ilog.filter isRCall || mleft != left then v := "DIFF C16" :: v
-  if mres.filter (!isRd ·) != ires.filter (!isRd ·) || m2.filter (!isRCall ·) != ilog.filter (!isRCall ·) then v := "DIFF C13" :: v
+  if !gatheredA ops ilog 2 alts && (mres.filter (!isRd ·) != ires.filter (!isRd ·) || m2.filter (!isRCall ·) != ilog.filter (!isRCall ·)) then v := "DIFF C13" :: v
   if ires.filter isRd != tres || ilog.filter isRCall != tlog || !prefixKept ops ires then v := "UNSAT C16" :: v
-  if !satC13a ops ires ilog 2 then v := "UNSAT C13" :: v
+  if !satC13a ops ires ilog 2 alts then v := "UNSAT C13" :: v
   if ires.contains "panic" then v := "UNSAT C04" :: v
   return (v, ops.length > 1)
 
@@ -199,6 +216,7 @@ def checkATK (oc : Bool) (pre impl tok : List String) : Option (List String × B
   let (s, limit, ops) ← match pre with
     | [a, l, o] => do pure ((← asrw? a), (← l.toNat?), (← (listOf o).mapM aop?))
     | _ => none
+  let alts := match pre with | [_, _, o] => DrvAD.gatherAlts o | _ => []
   let (ires, ilog, _) ← splitImpl impl
   let (tres, tlog, _) ← splitImpl tok
   let rec run (t : ATake ASRW) (ops : List AOp) (acc : List String) : ATake ASRW × List String :=
@@ -222,10 +240,10 @@ def checkATK (oc : Bool) (pre impl tok : List String) : Option (List String × B
   let mut v : List String := []
   if mres != ires || mlog != ilog then v := "DRIFT" :: v
   if mres.filter isRd != ires.filter isRd || mlog.filter isRCall != ilog.filter isRCall then v := "DIFF C16" :: v
-  if mres.filter (!isRd ·) != ires.filter (!isRd ·) || mlog.filter (!isRCall ·) != ilog.filter (!isRCall ·) then v := "DIFF C13" :: v
+  if !gatheredA ops ilog s.id alts && (mres.filter (!isRd ·) != ires.filter (!isRd ·) || mlog.filter (!isRCall ·) != ilog.filter (!isRCall ·)) then v := "DIFF C13" :: v
   if ires.filter isRd != tres || ilog.filter isRCall != tlog || !prefixKept ops ires || !satTakeCaps limit ops ires ilog then
     v := "UNSAT C16" :: v
-  if !satC13a ops ires ilog s.id then v := "UNSAT C13" :: v
+  if !satC13a ops ires ilog s.id alts then v := "UNSAT C13" :: v
   if ires.contains "panic" then v := "UNSAT C04" :: v
   return (v, ops.length > 1 && limit > 0)
 
@@ -373,7 +391,10 @@ def checkARF (pre impl : List String) : Option (List String × Bool) := do
   let idests := ilog.filterMap fun c => match c.splitOn ":" with | [_, d, _] => d.toNat? | _ => none
   if mpolls != ipolls then
     v := "DRIFT" :: v
-    if idests == mlog then v := s!"DIFF {tag}" :: v
+    -- C06 / C12 let an Interrupted answer be retried transparently: an implementation that surfaces fewer Interrupted
+    -- errors than the model (which surfaces every one) is using that latitude, and is then not comparable poll by poll
+    let nIntr (l : List String) := (l.filter fun p => p.startsWith "err2@").length
+    if idests == mlog && !(nIntr ipolls < nIntr mpolls) then v := s!"DIFF {tag}" :: v
   -- the property on the implementation's own polls: with pending / cancelled polls deleted the results are the
   -- specification's; at every cancellation point nothing is lost or duplicated; a poll is Pending only if the reader was
   let calls := ipolls.filter (· != "pending")
@@ -418,7 +439,42 @@ def checkACO (pre impl : List String) : Option (List String × Bool) := do
   let mpolls := go b0 { rem := s.data, acts := acts } ch [] 1000
   let tag := if ch.contains 'c' then "C15" else "C14"
   let mut v : List String := []
-  if mpolls != ipolls then v := "DRIFT" :: s!"DIFF {tag}" :: s!"UNSAT {tag}" :: v
+  -- reader calls of the implementation: destination lengths and results
+  let rcalls : List (Nat × String) := _ilog.filterMap fun c => match c.splitOn ":" with
+    | [_, d, r] => d.toNat?.map fun d => (d, r)
+    | _ => none
+  let free := b0.free
+  if mpolls != ipolls then
+    v := "DRIFT" :: v
+    -- comparable with the model only when the reader was called the same number of times (an Interrupted answer may
+    -- legitimately be retried: C12)
+    let mcalls := (mpolls.filter fun p => p == "pending" || p.startsWith "cancel").length + (if free = 0 then 0 else 1)
+    if rcalls.length == mcalls then v := s!"DIFF {tag}" :: v
+  -- the property on the implementation's own observations
+  let pendEntries := ipolls.filter fun p => p == "pending" || p.startsWith "cancel"
+  let finals := ipolls.filter fun p => !(p == "pending" || p.startsWith "cancel")
+  let cancelsOk := pendEntries.all fun p => p == "pending" || p == s!"cancel@{hex q0}@0"
+  let npend := (rcalls.filter fun c => c.2 == "pending").length
+  let destsOk := rcalls.all fun c => c.1 == free && decide (0 < free)
+  -- between Pendings only Interrupted may be answered and retried; the last answer is the one returned
+  let answers := rcalls.filter fun c => c.2 != "pending"
+  let earlyOk := answers.dropLast.all fun c => c.2 == "err2"
+  let finalOk := match finals with
+    | [] => true                       -- the scenario ended in a cancellation
+    | [f] =>
+      match f.splitOn "@" with
+      | [r, q, pos] =>
+        if r == "err0" && free == 0 then q == hex q0 && pos == "0" && rcalls.isEmpty
+        else if r.startsWith "ok" then
+          match (r.drop 2).toString.toNat? with
+          | some k => q == hex (q0 ++ s.data.take k) && pos == toString k && decide (k ≤ free) &&
+                      (answers.getLast?.map (·.2)) == some s!"ok{k}"
+          | none => false
+        else if r.startsWith "err" then q == hex q0 && pos == "0" && (answers.getLast?.map (·.2)) == some r
+        else false
+      | _ => false
+    | _ => false
+  if !(cancelsOk && pendEntries.length == npend && destsOk && earlyOk && finalOk) then v := s!"UNSAT {tag}" :: v
   return (v, ipolls.length > 1)
 
 end FBV.DrvAAD
